@@ -13,6 +13,12 @@ CexNoLostUpdate ==
   NoLostUpdate(st) \/ ~ndJsonSerialize("cex_nolostupdate.ndjson", hist)
 CexInUseInMap ==
   InUseInMap(st) \/ ~ndJsonSerialize("cex_inuseinmap.ndjson", hist)
+\* The design after the repair of F6 but without the read guard (WriteGuards
+\* = {1}): a Get() that read the backing store before another handle's
+\* content was written inserts its stale copy after that handle was
+\* discarded (finding F11).
+CexStaleRead ==
+  NoLostUpdate(st) \/ ~ndJsonSerialize("cex_staleread.ndjson", hist)
 CexPendingCarried ==
   PendingCarried(st) \/ ~ndJsonSerialize("cex_pendingcarried.ndjson", hist)
 
